@@ -97,6 +97,61 @@ func verifC13(maxF, maxS int, mode13 string) {
 	}
 }
 
+// verifC13Grow: the fix of a failed file also appends a statement to it (the
+// statement count of a partially applied file changes between the runs). The
+// re-run must complete, record the file with its new total, and a further run
+// must find nothing to do.
+func verifC13Grow() {
+	nf, ns := 2, 2
+	mode := []string{txModeNone, txModeFile}[verifChoice("txmode", 2)]
+	sh := verifShape{nf: nf, ns: ns, directive: make([]string, nf)}
+	sh.failFile = verifChoice("fail-file", nf)
+	sh.failStmt = verifChoice("fail-stmt", ns)
+	env := verifNewEnv()
+	defer env.close()
+	env.setDir(sh)
+	err := env.apply(mode, false, 0, "")
+	verifAssert(err != nil, "a failing statement fails the command")
+	grown := sh.failFile
+	sh.failFile, sh.failStmt = -1, -1
+	sh.extra = grown + 1
+	env.setDir(sh)
+	err = env.apply(mode, false, 0, "")
+	verifAssert(err == nil, "after fixing (and extending) the file the command completes")
+	final := env.snapshot()
+	var all []string
+	for i := 0; i < nf; i++ {
+		n := ns
+		if i == grown {
+			n++
+		}
+		for j := 0; j < n; j++ {
+			all = append(all, fmt.Sprintf("S%d_%d", i, j))
+		}
+	}
+	verifReach("grown-" + mode)
+	verifObserve("journal", verifJoin(final.journal))
+	verifAssert(verifJoin(final.journal) == verifJoin(all), "fix and re-run executes every statement of the final files once, in order")
+	verifAssert(len(final.revs) == nf, "every file has a revision")
+	revs := ""
+	for i, r := range final.revs {
+		n := ns
+		if i == grown {
+			n++
+		}
+		revs += fmt.Sprintf("%s:%d/%d,", r.version, r.applied, r.total)
+		verifAssert(r.applied == n && r.total == n, "every file is recorded as fully applied with its current statement count")
+	}
+	verifObserve("revs", revs)
+	// one more run: nothing to do, nothing executed
+	err = env.apply(mode, false, 0, "")
+	verifAssert(err == nil, "a further run finds nothing to do")
+	again := env.snapshot()
+	verifAssert(verifJoin(again.journal) == verifJoin(all), "a further run executes nothing")
+}
+
+func VerifHarness_C13_grow() { verifC13Grow() }
+
 // C13 (dry-run): nothing changes.
 func verifC13DryRun(maxF, maxS int, mode13 string) {
 	nf := verifChoice("files", maxF) + 1
@@ -135,8 +190,8 @@ func verifC13DryRun(maxF, maxS int, mode13 string) {
 	verifAssert(len(after.revs) == len(before.revs), "dry-run writes no revision")
 }
 
-func VerifHarness_C13_fail()            { verifC13(2, 2, "main") }
-func VerifHarness_C13_fail3()           { verifC13(3, 2, "main") }
-func VerifHarness_C13_fail_witness()    { verifC13(2, 1, "witness") }
-func VerifHarness_C13_dryrun()          { verifC13DryRun(2, 2, "main") }
-func VerifHarness_C13_dryrun_witness()  { verifC13DryRun(1, 1, "witness") }
+func VerifHarness_C13_fail()           { verifC13(2, 2, "main") }
+func VerifHarness_C13_fail3()          { verifC13(3, 2, "main") }
+func VerifHarness_C13_fail_witness()   { verifC13(2, 1, "witness") }
+func VerifHarness_C13_dryrun()         { verifC13DryRun(2, 2, "main") }
+func VerifHarness_C13_dryrun_witness() { verifC13DryRun(1, 1, "witness") }
